@@ -146,6 +146,16 @@ struct Run {
   std::function<void(Run &)> after_step;                   // profile-specific invariant
   std::function<void(Run &)> at_end;                       // profile-specific history oracle
   std::function<void(Run &, Req &)> on_done;               // profile-specific per-completion oracle
+  std::function<bool(Run &, const Step &)> pre_req;          // may take over an S_REQ step (returns true if it did)
+  int max_tries_seen = 0;
+  std::vector<std::function<void(Run &, Tx &)>> tx_obs;     // observers of every transmission at the virtual servers
+  std::vector<int> active;                                  // indices into cfg.servers currently configured on the channel
+  int eff_tries = 3, eff_timeout_ms = 2000, eff_maxtimeout_ms = 0, max_active = 0, eff_ndots = 1, eff_rotate = 0;
+  struct ListEv { int64_t t; int kind; uint32_t seq; };      // kind 0 same list, 1 changed list, 2 reinit
+  std::vector<ListEv> srv_list_events;
+  void read_effective();
+  void set_servers_variant(int variant);
+  void do_reinit(int chan);
 
   explicit Run(const RunCfg &c) : cfg(c), aux(c.seed ^ 0x1234567) { chans.reserve(16); reqs.reserve(512); }
   void setup_world();
@@ -178,6 +188,10 @@ size_t peek_all_queries_len(const ares_channel_t *ch);
 int peek_available(void);
 int peek_expired_in_index(const ares_channel_t *ch, long long now_us);
 int peek_conn_count(const ares_channel_t *ch);
+struct peek_qinfo { unsigned short qid; long long ts_us; long long deadline_us; unsigned long try_count; int using_tcp; int server_idx; int no_retries; };
+int peek_queries(const ares_channel_t *ch, struct peek_qinfo *out, int cap);
+size_t peek_num_servers(const ares_channel_t *ch);
+int peek_channel_opts(const ares_channel_t *ch, long *tries, long *timeout_ms, long *maxtimeout_ms, long *ndots, long *rotate);
 }
 
 // allocator ledger
